@@ -314,6 +314,9 @@ fn histories(cli: &Path, work: &Path, rep: &mut Report, thorough: bool) {
                         // a further line that is not text, after whatever the file holds
                         if let Some(c) = &before {
                             let mut c = c.clone();
+                            if !c.ends_with(b"\n") {
+                                c.push(b'\n');
+                            }
                             c.extend_from_slice(b"\xff\xfe junk\n");
                             std::fs::write(&out, c).unwrap();
                         }
